@@ -637,11 +637,11 @@ def pool_specs():
 
 
 @st.composite
-def large_specs(draw, aggs, max_k=10, many_ok=True, min_nd=0):
+def large_specs(draw, aggs, max_k=10, many_ok=True, min_nd=0, max_n=10 ** 9):
     """Hundreds to thousands of rows, few or MANY categories (extent ~ N / 3), up to ten fact columns: size-dependent
     paths inside the aggregate functions (buffers, bincount lengths, per-category loops) are crossed.
     The row data is generated from three small integers by expand()."""
-    N = draw(st.sampled_from([256, 300, 1024, 1100, 2048, 2500, 2500, 4096, 65536, 131072]))
+    N = draw(st.sampled_from([n for n in [256, 300, 1024, 1100, 2048, 2500, 2500, 4096, 65536, 131072] if n <= max_n]))
     nd = draw(st.sampled_from([n for n in [0, 1, 1, 2, 2, 2] if n >= min_nd]))
     recipe = [draw(st.integers(1, 9)), draw(st.integers(0, 9)), draw(st.integers(0, 9))]
     rows = draw(st.sampled_from(["random", "sorted", "sorted", "blocks64", "blocks1024"]))
@@ -659,6 +659,9 @@ def large_specs(draw, aggs, max_k=10, many_ok=True, min_nd=0):
         elif rows != "random" and i == 0 and others and draw(st.integers(0, 3)):
             common = draw(st.sampled_from(others))  # the long runs of a sorted file are LISTED entries, not the common value
         dims.append({"tail": tail, "extent": extent, "common": common, "big": False})
+        if many:
+            N = min(N, 1100)  # hundreds of categories x thousands of rows x ten columns would only slow the oracle down
+            max_k = min(max_k, 2)
     agg = draw(st.sampled_from(aggs))
     case = {"N": N, "dims": dims, "shape_mode": draw(st.sampled_from(["inferred", "exact"])), "pads": [1] * nd,
             "readonly": False, "reverse": draw(st.booleans()), "alias": None, "agg": agg,
